@@ -236,6 +236,10 @@ func (pipeline *IncrementalPipeline) sync(job *job, ctx context.Context) (int, e
 						if len(entities) < parallelisms {
 							parallelisms = 1
 						}
+						if parallelisms < 1 {
+							// "Parallelism": 0 or a negative number is accepted by the scheduler: one worker
+							parallelisms = 1
+						}
 
 						// round the chunk size up, so that all chunks together always cover the whole batch
 						// (rounding to nearest dropped the tail of the batch, or produced a negative chunk length)
